@@ -83,6 +83,22 @@ def build(tree, share: Optional[dict] = None) -> Any:
     return kv
 
 
+class _ListSink(list):
+    """A collector used as a file: write() appends.  Like every empty list it is falsy until something was written."""
+    write = list.append
+
+
+class _WriteOnly:
+    __slots__ = ('parts',)
+
+    def __init__(self) -> None:
+        self.parts: List[str] = []
+
+    def write(self, text: str) -> int:
+        self.parts.append(text)
+        return len(text)
+
+
 def snapshot(kv) -> Any:
     """Structural content via the public API (real_name, value/children), never __eq__."""
     if kv.has_children():
@@ -165,6 +181,14 @@ def check_tree(run, rng, tree, engine: str, case_id: Any, share: Optional[bool] 
         run.count('trees_with_one_object_in_two_places')
     before = snapshot(kv)
     want = before if tree[0] is not None else before
+    # the accessors used as the reference below are themselves checked against the description the tree was built from
+    def as_snap(t):
+        return (t[0], t[1]) if isinstance(t[1], str) else (t[0], [as_snap(c) for c in t[1]])
+    d0 = first_diff(as_snap(tree), before)
+    if d0 is not None:
+        run.violation(f'the tree just built does not report the names/values it was built from: {d0}', case=case, engine=engine,
+                      key='accessors-differ-from-construction')
+        return
     # --- serialise under one random option set + the default, compare all outputs modulo whitespace
     opt_sets = [dict(indent='\t', indent_braces=False, start_indent='')]
     opt_sets.append(dict(indent=rng.choice(INDENTS), indent_braces=rng.random() < 0.5, start_indent=rng.choice(START_INDENTS)))
@@ -173,11 +197,31 @@ def check_tree(run, rng, tree, engine: str, case_id: Any, share: Optional[bool] 
     for i, opts in enumerate(opt_sets):
         try:
             if i == 2:
-                buf = io.StringIO()
+                # anything with a write() method is a file for serialise(): StringIO, a real text file, a bare collector
+                # (a list subclass, which is falsy while it is empty), an object that has write() and nothing else
+                sink_kind = (case_id if isinstance(case_id, int) else len(texts)) % 4
+                if sink_kind == 0:
+                    buf: Any = io.StringIO()
+                elif sink_kind == 1:
+                    buf = _ListSink()
+                elif sink_kind == 2:
+                    buf = tempfile.TemporaryFile('w+', encoding='utf8', errors='surrogatepass', newline='')
+                else:
+                    buf = _WriteOnly()
                 res = kv.serialise(buf, **opts)
-                text = buf.getvalue()
+                if sink_kind == 0:
+                    text = buf.getvalue()
+                elif sink_kind == 1:
+                    text = ''.join(buf)
+                elif sink_kind == 2:
+                    buf.seek(0)
+                    text = buf.read()
+                    buf.close()
+                else:
+                    text = ''.join(buf.parts)
+                run.count('serialise_into_sinks')
                 if res is not None:
-                    run.violation('serialise(file) returned a value', case=case, engine=engine, key='serialise-return')
+                    run.violation(f'serialise(file) returned a value (sink kind {sink_kind})', case=case, engine=engine, key='serialise-return')
             else:
                 text = kv.serialise(**opts)
         except Exception as exc:
@@ -285,6 +329,11 @@ def check_tree(run, rng, tree, engine: str, case_id: Any, share: Optional[bool] 
             else:
                 node.edit(name=new_name)
             edited += 1
+            if how < 3 or node.has_children():
+                if node.real_name != new_name or node.name != new_name.casefold():
+                    run.violation(f'after renaming (way {how}) the node reports real_name={node.real_name!r} name={node.name!r}, not {new_name!r}',
+                                  case=case, engine=engine, key='accessors-differ-from-construction')
+                    return
         except Exception as exc:
             run.violation(f'editing a node of a serialised tree raised {exc!r}', case=case, engine=engine, key='edit-raises')
             return
@@ -348,7 +397,7 @@ def main(run, shard=(0, 1)) -> None:
     probe.report(run)
     probe.check_reached(run)
     run.require('serialise_calls', 'parse_calls', 'real_file_deliveries', 'roundtrips_after_edit', 'trees_with_escape_char_in_block_name',
-                'trees_with_one_object_in_two_places', 'prebuilt_tokenizer_deliveries')
+                'trees_with_one_object_in_two_places', 'prebuilt_tokenizer_deliveries', 'serialise_into_sinks')
 
 
 def replay(run, data) -> None:
